@@ -323,19 +323,15 @@ structure Handle where
 
 structure St where
   fs : Fs := {}
-  slots : List (Nat × Handle) := []
-  deriving DecidableEq, Repr, Inhabited
+  slots : Nat → Option Handle := fun _ => none     -- the harness' handle slots
+  deriving Inhabited
 
 def St.init : St := {}
 
-def getSlot (st : St) (i : Nat) : Option Handle :=
-  match st.slots.find? (fun kv => kv.1 == i) with
-  | some kv => some kv.2
-  | none => none
-
-def dropSlot (st : St) (i : Nat) : St := { st with slots := st.slots.filter fun kv => kv.1 != i }
+def getSlot (st : St) (i : Nat) : Option Handle := st.slots i
+def dropSlot (st : St) (i : Nat) : St := { st with slots := fun j => if j = i then none else st.slots j }
 def setSlot (st : St) (i : Nat) (h : Handle) : St :=
-  { st with slots := (st.slots.filter fun kv => kv.1 != i) ++ [(i, h)] }
+  { st with slots := fun j => if j = i then some h else st.slots j }
 
 inductive View where
   | none
@@ -560,7 +556,7 @@ def step (cfg : Cfg) (st : St) (op : Op) (ora : Ora) : St × Obs :=
     | .error e => (st, .err e)
     | .ok fs1 => ({ st with fs := writeFs fs1 p 0 d ora.coin }, .ok)
   | .dump pool => (st, .dump (([] :: pool).map fun p => (p, viewOf st.fs p)))
-  | .crash => ({ fs := crash st.fs cfg.block ora.torn, slots := [] }, .ok)
+  | .crash => ({ fs := crash st.fs cfg.block ora.torn, slots := fun _ => none }, .ok)
 
 /-- run a whole history; `oras` is consumed one per op -/
 def run (cfg : Cfg) : St → List (Op × Ora) → List Obs
